@@ -97,9 +97,11 @@ fn make_subjects(a: &assets::Asset, notes: &mut Vec<String>) -> Vec<Subject> {
     out.push(mk("signed-valid", valid.clone(), true, String::new()));
     out.push(mk("untrusted", valid.clone(), false, String::new()));
     // chain of depth 3
+    let mut chain3_bytes: Option<Vec<u8>> = None;
     if let Ok(a2) = defgen::sign_simple(a.format, &valid, "gen2", "es256", BuilderIntent::Edit, &[]) {
         if let Ok(a3) = defgen::sign_simple(a.format, &a2, "gen3", "ps256", BuilderIntent::Edit, &[]) {
-            out.push(mk("chain3", a3, true, String::new()));
+            out.push(mk("chain3", a3.clone(), true, String::new()));
+            chain3_bytes = Some(a3);
         }
     }
     // tampered content / tampered store (positions chosen with the independent parser)
@@ -116,6 +118,11 @@ fn make_subjects(a: &assets::Asset, notes: &mut Vec<String>) -> Vec<Subject> {
                 t[pos] ^= 0x01;
                 let s = standalone(a.format, &t, true);
                 if s.ok && !s.failures.is_empty() {
+                    // an edit signed on top of the tampered asset: its own manifest is fine, the failure sits in
+                    // the nested (parent) ingredient
+                    if let Ok(e2) = defgen::sign_simple(a.format, &t, "edit of tampered", "es256", BuilderIntent::Edit, &[]) {
+                        out.push(mk("chain-nested-failure", e2, true, format!("edit signed on top of a content-tampered parent (byte {pos} flipped)")));
+                    }
                     out.push(mk("tampered-content", t, true, format!("byte {pos} of {} flipped", valid.len())));
                     done = true;
                     break;
@@ -166,8 +173,9 @@ fn make_subjects(a: &assets::Asset, notes: &mut Vec<String>) -> Vec<Subject> {
             }
         }
     }
-    // ingredient archive holding the valid subject
-    {
+    // ingredient archives holding the valid subject and the depth-3 chain
+    for (state, held) in [("archive", Some(valid.clone())), ("archive-chain3", chain3_bytes.clone())] {
+        let Some(valid) = held else { continue };
         let c = defgen::context(true, false, false, &json!({"verify": {"verify_trust": true, "remote_manifest_fetch": false}, "builder": {"generate_c2pa_archive": true}}));
         if let Ok(mut b) = Builder::from_context(c).with_definition(json!({"title": "archiver"})) {
             let mut cur = Cursor::new(valid.clone());
@@ -176,7 +184,7 @@ fn make_subjects(a: &assets::Asset, notes: &mut Vec<String>) -> Vec<Subject> {
                 let mut ar = Cursor::new(Vec::new());
                 match report::catch_sdk(|| b.write_ingredient_archive("arch_ing", &mut ar)) {
                     Ok(Ok(())) => {
-                        let mut s = mk("archive", ar.into_inner(), true, String::new());
+                        let mut s = mk(state, ar.into_inner(), true, String::new());
                         s.format = "application/c2pa".into();
                         s.store = independent_store(a.format, &valid).map(|s| s.0);
                         s.reference = Some((f.clone(), valid.clone()));
